@@ -216,6 +216,9 @@ func (c *Ctx) play(sp *playSpec) Obs {
 		rec := Obs{"i": i, "actor": st.Actor, "until": st.Until, "label": st.Label}
 		if _, isActor := sp.Actors[st.Actor]; isActor && !started[st.Actor] {
 			start(st.Actor)
+		} else if _, arrived := pending[st.Actor]; arrived {
+			// the actor reached a gated point (or finished) while another actor was being stepped: this step
+			// only takes note of that arrival; the actor stays parked until its next step
 		} else if pt, ok := p.parked[st.Actor]; ok && pt != "" {
 			p.parked[st.Actor] = ""
 			p.mu.Lock()
